@@ -147,3 +147,32 @@ func vfCorner9(pat int) {
 		return vfOr(vfAnd(q.X == 1, vfAnd(q.Y > 0, q.Y < 2)), vfAnd(q.Y == 1, vfAnd(q.X > 0, q.X < 2)))
 	}, "on the lattice edges around a lattice point an even number of segment ends meet")
 }
+
+// C08 is observed behind the Line2Buffer: the buffer must deliver every segment of the
+// one- and two-segment writes that marching squares makes (a saddle cell writes a pair),
+// whatever the fill level at which a pair arrives.
+func vc_C08_buffer_keeps_pairs() {
+	pre := []int{0, 1, 126, 127, 128, 253, 254, 255}[vfCase("pre", 8)]
+	var pat []int
+	for i := 0; i < pre; i++ {
+		pat = append(pat, 1)
+	}
+	pat = append(pat, 2, 1, 2)
+	batches, all := vfMakeLines(pat, 0)
+	var got []*sdf.Line2
+	out, wait := vfCollectLines(&got)
+	w := sdf.NewLine2Buffer(out)
+	for _, b := range batches {
+		w.Write(b)
+	}
+	w.Close()
+	close(out)
+	wait()
+	vfReach("pairs delivered")
+	vfAssert(len(got) == len(all), "the line buffer delivers as many segments as marching squares wrote")
+	for i := range all {
+		if i < len(got) {
+			vfAssert(got[i] == all[i], "the line buffer delivers every segment, in order")
+		}
+	}
+}
